@@ -9,6 +9,7 @@ import Gleece.Driver.Graph
 import Gleece.Driver.Annot
 import Gleece.Driver.IRHandler
 import Gleece.Driver.Proj
+import Gleece.Driver.Cfg
 open Lean Gleece.Driver
 
 def handlers : List (String × Handler) := [
@@ -16,7 +17,8 @@ def handlers : List (String × Handler) := [
   ("graph", graphHandler),
   ("annot", annotHandler),
   ("ir", irHandler),
-  ("proj", projHandler)
+  ("proj", projHandler),
+  ("cfg", cfgHandler)
 ]
 
 def processLine (prop : String) (line : String) (implLine : Option String) : Json :=
